@@ -176,6 +176,7 @@ class QuicStreamSender:
         self.highest_offset = 0
         self.is_finished = not writable
         self.reset_pending = False
+        self.stopped_by_peer = False
 
         self._acked = RangeSet()
         self._acked_fin = False
@@ -335,6 +336,10 @@ class QuicStreamSender:
         """
         Write some data bytes to the QUIC stream.
         """
+        if self.stopped_by_peer:
+            # The stream was reset at the peer's request (STOP_SENDING), maybe
+            # before the application has heard of it: discard the data.
+            return
         assert self._buffer_fin is None, "cannot call write() after FIN"
         assert self._reset_error_code is None, "cannot call write() after reset()"
         size = len(data)
